@@ -18,7 +18,7 @@ struct SlipHarness : Harness {
     std::vector<std::string> probes(const std::string &) const override {
         return {"garbage_ends_in_esc", "garbage_without_delimiter", "garbage_esc_followed_by_end", "sof_first_frame_lost", "empty_frame_sof", "empty_frame_classic",
                 "sink_error_on_escaped_octet", "encoder_source_error", "encoder_sink_error", "decoder_source_error", "decoder_sink_error", "illegal_sequence_reported",
-                "resynchronised_after_garbage", "concatenated_frames", "worst_case_length_reached"};
+                "resynchronised_after_garbage", "concatenated_frames", "worst_case_length_reached", "source_error_between_frames_then_retry"};
     }
     uint64_t runs(const std::string &, const Tier &t) const override { return t.thorough() ? 30000000 : 2500000; }
 
@@ -35,7 +35,9 @@ struct SlipHarness : Harness {
         Json as = Json::arr();
         as.push("resynchronisation is stated as a suffix property: classic mode - delivered frames end with F2..Fk (F1 may merge with the garbage tail); "
                 "start-of-frame mode - delivered non-empty frames end with all non-empty Fi except possibly the first");
-        as.push("after an injected driver error only 'returned unchanged' is demanded for that call; decoder state afterwards is unconstrained");
+        as.push("after an injected driver error only 'returned unchanged' is demanded for that call and the decoder state afterwards is unconstrained - except when the source "
+                "failed or ran dry (-ENODATA) exactly between two frames without handing out an octet: nothing was taken off the line, so the following frames are still concatenated, "
+                "uncorrupted encodings and must be delivered when the line is read again (also behind a corrupted prefix, under the suffix rule)");
         as.push("drivers returning 0 / EINTR / EAGAIN are not generated here (rfc1055.c reads and writes octet-wise without retry; retry semantics belong to C17); partial transfers (k>=1) on chunk sinks are");
         as.push("the encoding is not required to be octet-identical to a reference encoder, only transparent, delimiter-free inside and within the 2n+1 / 2n+2 bound");
         as.push("payload / garbage space is sampled (5-symbol alphabet up to length 9 in the quick tier), not enumerated");
@@ -99,7 +101,19 @@ struct SlipHarness : Harness {
             f["pos"] = (long long)r.range(0, 2 * maxlen + 3 > 24 ? 24 : 2 * maxlen + 3);
             static const int CODES[] = {EIO, EPIPE, ENOMEM, ECONNRESET, ENOSPC, EBADF};
             f["code"] = CODES[r.below(6)];
+            if (f.geti("where") == 2 && r.chance(1, 2)) {  // the line fails or runs dry exactly between two frames, and is read again afterwards
+                size_t b = 0; int upto = (int)r.below((uint64_t)k);
+                for (int i = 0; i < upto; ++i) b += ref_encode(unhex(frames.at((size_t)i).s), sof).size();
+                f["pos"] = (long long)b;
+                if (r.chance(1, 2)) f["code"] = ENODATA;
+                f["rearm"] = (long long)r.below(3);
+            }
             p["fault"] = f;
+        } 
+        if (fam == "garbage" && r.chance(1, 4)) {  // the same between the clean frames behind a corrupted prefix (boundary index, counted from the end of the garbage)
+            Json f = Json::obj();
+            f["boundary"] = (long long)r.below((uint64_t)k); f["code"] = r.chance(1, 2) ? ENODATA : EIO; f["rearm"] = (long long)r.below(3);
+            p["dry"] = f;
         }
         if (r.chance(1, 3)) {  // partial transfers on a chunk sink (>= 1 octet)
             Json s = Json::arr(); int n = (int)r.range(1, 6);
@@ -166,7 +180,8 @@ struct SlipHarness : Harness {
         const Json &fault = plan.get("fault");
         int where = fam == "errors" ? (int)(fault.geti("where") & 3) : -1;
         int64_t fpos = fault.geti("pos"); if (fpos < 0) fpos = 0;
-        int fcode = (int)fault.geti("code", EIO); if (fcode <= 0 || fcode == EILSEQ || fcode == ENODATA || fcode == EINTR || fcode == EAGAIN) fcode = EIO;  // transient codes are retried by the endpoint layer (C17), not 'returned unchanged'
+        int fcode = (int)fault.geti("code", EIO); if (fcode <= 0 || fcode == EILSEQ || (fcode == ENODATA && where != 2) || fcode == EINTR || fcode == EAGAIN) fcode = EIO;  // transient codes are retried by the endpoint layer (C17), not 'returned unchanged'; ENODATA is 'the line is dry right now'
+        int64_t rearm = fault.geti("rearm"); if (rearm < 0 || rearm > 16) rearm = 0;
 
         // ---- encode all frames with the real encoder
         Bytes line;
@@ -201,16 +216,26 @@ struct SlipHarness : Harness {
             if (where == 2) { D.src.err_pos = fpos; D.src.err_code = fcode; }
             if (where == 3) { D.snk.err_pos = fpos; D.snk.err_code = fcode; }
             if (partial && fam == "roundtrip") D.snk.script.load(*partial);
+            std::vector<size_t> bounds; { size_t b = 0; for (auto &e : encs) { bounds.push_back(b); b += e.size(); } }
             for (size_t i = 0; i < F.size(); ++i) {
                 Bytes got; size_t consumed; bool fin;
+                const bool armed = where == 2 && D.src.err_pos >= 0;
                 int rc = D.call(got, consumed, fin);
                 if (!fin) { c.fail("noprogress.decode", "decoder did not return within the step budget"); return; }
                 if (got.size() > consumed) c.fail("expansion.decode", "decoder emitted %zu octets but consumed only %zu", got.size(), consumed);
-                bool sfired = where == 2 && D.src.saw_error(-fcode), kfired = where == 3 && D.snk.saw_error(-fcode);
+                bool sfired = armed && D.src.err_pos < 0, kfired = where == 3 && D.snk.saw_error(-fcode);
                 if (sfired || kfired) {
                     COUNT(sfired ? "probe.decoder_source_error" : "probe.decoder_sink_error");
                     if (rc != -fcode) c.fail(sfired ? "error.decode_source" : "error.decode_sink", "driver failed with %d, decoder returned %d", -fcode, rc);
                     if (kfired && consumed >= 2 && D.src.pos >= 2 && line[D.src.pos - 2] == ESC) COUNT("probe.sink_error_on_escaped_octet");
+                    // A source that failed (or ran dry) exactly between two frames took nothing off the line: the frames that follow are
+                    // still concatenated, uncorrupted encodings and must come out when the line is read again.
+                    if (sfired && c.viol.empty() && D.src.pos == bounds[i] && consumed == 0) {
+                        COUNT("probe.source_error_between_frames_then_retry");
+                        if (!got.empty()) { c.fail("expansion.decode", "decoder emitted %zu octets but consumed none", got.size()); return; }
+                        if (rearm > 0 && i + 1 < F.size()) { --rearm; D.src.err_pos = (int64_t)bounds[i + 1]; }
+                        --i; continue;
+                    }
                     return;
                 }
                 if (rc != 1) { c.fail("transparency.decode", "frame %zu of %zu: decode returned %d instead of end-of-frame (1)", i, F.size(), rc); return; }
@@ -229,15 +254,32 @@ struct SlipHarness : Harness {
             if (std::find(g.begin(), g.end(), END) == g.end() && !g.empty()) COUNT("probe.garbage_without_delimiter");
             for (size_t i = 0; i + 1 < g.size(); ++i) if (g[i] == ESC && g[i + 1] == END) { COUNT("probe.garbage_esc_followed_by_end"); break; }
             Dec D(c, sof, so, ko, all);
+            // optionally the line fails once / runs dry exactly at the start of a clean frame and is read again
+            std::vector<size_t> bounds; { size_t b = g.size(); for (auto &e : encs) { bounds.push_back(b); b += e.size(); } }
+            int dcode = 0; int64_t drearm = 0; size_t dnext = 0;
+            if (plan.has("dry") && !bounds.empty()) {
+                const Json &dj = plan.get("dry");
+                dcode = (int)dj.geti("code", ENODATA); if (dcode != ENODATA && dcode != EIO && dcode != EPIPE) dcode = ENODATA;
+                drearm = dj.geti("rearm"); if (drearm < 0 || drearm > 16) drearm = 0;
+                int64_t bi = dj.geti("boundary"); if (bi < 0) bi = 0; dnext = (size_t)bi % bounds.size();
+                D.src.err_pos = (int64_t)bounds[dnext]; D.src.err_code = dcode;
+            }
             std::vector<Bytes> delivered;
             size_t calls = 0;
             bool eilseq = false;
             for (;;) {
-                if (++calls > all.size() + 4) { c.fail("noprogress.resync", "more decode calls than octets on the line"); return; }
+                if (++calls > all.size() + 24) { c.fail("noprogress.resync", "more decode calls than octets on the line"); return; }
                 Bytes got; size_t consumed; bool fin;
+                const bool armed = D.src.err_pos >= 0;
                 int rc = D.call(got, consumed, fin);
                 if (!fin) { c.fail("noprogress.decode", "decoder did not return within the step budget"); return; }
                 if (got.size() > consumed) c.fail("expansion.decode", "decoder emitted %zu octets but consumed only %zu", got.size(), consumed);
+                if (armed && D.src.err_pos < 0) {  // fired in this call
+                    COUNT("probe.source_error_between_frames_then_retry");
+                    if (rc != -dcode) { c.fail("error.decode_source", "driver failed with %d, decoder returned %d", -dcode, rc); return; }
+                    if (drearm > 0 && dnext + 1 < bounds.size()) { --drearm; ++dnext; D.src.err_pos = (int64_t)bounds[dnext]; }
+                    continue;
+                }
                 if (rc == 1) delivered.push_back(got);
                 else if (rc == -EILSEQ) eilseq = true;
                 else if (rc == -ENODATA && D.src.pos == all.size()) break;
